@@ -54,6 +54,7 @@ LEVEL = {
 LEVEL["decided"] += " (R01.12) fourteen tools (takewhile, dropwhile, filterfalse, filter, pairwise, batched, accumulate, starmap, enumerate, map, compress, chain, cycle, iter with sentinel) and the two inner generators of zip as finite tables by abstract evaluation — the items yielded and the way the generator ends (C05/C06 also compare items taken and calls), 373 cells, compared with the stdlib tool executed on the same symbols; (R01.13) the library's scope managers around the sources never suppress an exception."
 LEVEL["decided"] += " (R01.14) tee: every history of next / close operations on 2-3 children over sources of up to 3 items gives each child the items of the source in order (object model with generator frames, compared with itertools.tee after every operation); (R01.15) merge as a table of 548 cells (1-3 sources, every sorted ranking with ties, key, reverse) against heapq.merge; (R01.16/R01.17) awaitify never wraps a plain library function, and no helper updates a user's value in place."
 LEVEL["decided"] += ' (R01.18) the adapter that turns an argument into an iterator accepts what the stdlib accepts (R03.2/R03.3, shared); (R01.19) fault cells, items only: for every use of a source / callable that either side makes, with that use raising, the same items come out and the tool ends the same way.'
+LEVEL["decided"] += ' R01.7 also: a private sentinel is told from an item by identity, never by == / !=.'
 LEVEL["technique"] += '; tee histories and the merge table by abstract evaluation over an object model with generator frames, compared with the executed stdlib'
 
 PASS_THROUGH = ["builtins.zip", "builtins._zip_inner", "builtins._zip_inner_strict", "builtins.filter",
